@@ -226,7 +226,7 @@ func (P *Prog) genFunction(fn *ssa.Function, con *FuncContract) *Gen {
 			decr: map[*ssa.BasicBlock]string{}, headState: map[*ssa.BasicBlock]State{}, strlits: map[string]string{},
 			closures: map[ssa.Value]*ssa.MakeClosure{}, callNo: map[string]int{}, debug: map[string][]dbgRec{},
 			iterKey: map[*ssa.Range]string{}, usedFns: map[string]bool{}, lastType: map[string]types.Type{},
-			atcallSeen: map[*Clause]bool{}, noContract: map[string]bool{}, heapModule: map[string]bool{}, stableFV: map[*ssa.FreeVar]bool{}, stableLoc: map[*ssa.Alloc]bool{}, storeRecs: map[*ssa.BasicBlock]map[string][]storeRec{}, imprecise: map[*ssa.BasicBlock]map[string]bool{}, pass1: p1}
+			atcallSeen: map[*Clause]bool{}, noContract: map[string]bool{}, heapModule: map[string]bool{}, stableFV: map[*ssa.FreeVar]bool{}, stableLoc: map[*ssa.Alloc]bool{}, wfSeen: map[string]bool{}, storeRecs: map[*ssa.BasicBlock]map[string][]storeRec{}, imprecise: map[*ssa.BasicBlock]map[string]bool{}, pass1: p1}
 		if con != nil {
 			g.allocBound = con.AllocBound
 		}
